@@ -231,6 +231,9 @@ class Check:
         for k in self.known:
             if k.get("property") == self.pid and k.get("kind", "known") == "known" and key is not None and k.get("key") == key:
                 self.known_hits.append((k, obligation))
+                for r in self.rows:  # a listed finding is reported as such, not counted as an obligation
+                    if r["name"] == obligation:
+                        r["result"] = "known-finding"
                 return
         os.makedirs(os.path.join(VERIF, "replay"), exist_ok=True)
         path = os.path.join(VERIF, "replay", "%s-%s.json" % (self.pid, _san(obligation)))
@@ -248,7 +251,7 @@ class Check:
     # ------------------------------------------------------------------ finish
     def finish(self, level="proof", explanation=None, checker_cmd=None):
         wall = time.time() - self.t0
-        nob = len(self.rows)
+        nob = sum(1 for r in self.rows if r["result"] != "known-finding")
         ndis = sum(1 for r in self.rows if r["result"] == "proved")
         if nob == 0 and not self.undecided:
             self.errors.append("no obligations were generated")
